@@ -169,4 +169,270 @@ theorem provisionContext_ctx (cid : Nat) (c : Cfg) (pp : List Nat) (s : State) (
       subst h2
       exact ⟨rfl, rfl⟩
 
+/-! ### Start / Stop: what happens to sockets -/
+
+structure Frame4 (s s' : State) : Prop where
+  raw : s'.raw = s.raw
+  rawJSON : s'.rawJSON = s.rawJSON
+  cur : s'.cur = s.cur
+  next : s'.next = s.next
+
+theorem Frame4.rfl' (s : State) : Frame4 s s := ⟨rfl, rfl, rfl, rfl⟩
+
+theorem Frame4.trans {a b c : State} (h1 : Frame4 a b) (h2 : Frame4 b c) : Frame4 a c :=
+  ⟨h2.raw.trans h1.raw, h2.rawJSON.trans h1.rawJSON, h2.cur.trans h1.cur, h2.next.trans h1.next⟩
+
+theorem Frame.to4 {s s' : State} (h : Frame s s') : Frame4 s s' := ⟨h.raw, h.rawJSON, h.cur, h.next⟩
+
+def mkSock (cid : Nat) (a : App) (ad : Nat) : Sock := ⟨ad, a.tag, cid, a.name⟩
+
+theorem appSocks_eq (cid : Nat) (a : App) : appSocks cid a = a.listen.map (mkSock cid a) := rfl
+
+/-- bindAll binds a prefix of the listener list; it binds all of it iff it reports success, and
+    otherwise the first address it did not bind is a blocked one -/
+theorem bindAll_spec (cid : Nat) (a : App) (blocked : List Nat) : ∀ (l : List Nat) (s : State),
+    ∃ pre suf, l = pre ++ suf ∧
+      (bindAll cid a blocked l s).1 = { s with socks := s.socks ++ pre.map (mkSock cid a) } ∧
+      ((bindAll cid a blocked l s).2 = true → suf = []) ∧
+      ((bindAll cid a blocked l s).2 = false → ∃ x suf', suf = x :: suf' ∧ x ∈ blocked)
+  | [], s => ⟨[], [], rfl, by simp [bindAll], fun _ => rfl, by simp [bindAll]⟩
+  | ad :: rest, s => by
+    unfold bindAll
+    split
+    · rename_i hb
+      refine ⟨[], ad :: rest, rfl, by simp, by simp, fun _ => ⟨ad, rest, rfl, ?_⟩⟩
+      unfold isBlocked at hb
+      simp at hb
+      exact hb.1
+    · obtain ⟨pre, suf, h1, h2, h3, h4⟩ :=
+        bindAll_spec cid a blocked rest { s with socks := s.socks ++ [⟨ad, a.tag, cid, a.name⟩] }
+      refine ⟨ad :: pre, suf, by simp [h1], ?_, h3, h4⟩
+      rw [h2]
+      simp [mkSock]
+
+theorem bindAll_frame4 (cid : Nat) (a : App) (blocked : List Nat) (l : List Nat) (s : State) :
+    Frame4 s (bindAll cid a blocked l s).1 := by
+  obtain ⟨pre, suf, _, h2, _, _⟩ := bindAll_spec cid a blocked l s
+  rw [h2]; exact ⟨rfl, rfl, rfl, rfl⟩
+
+theorem closeApp_frame4 (cid n : Nat) (s : State) : Frame4 s (closeApp cid n s) := ⟨rfl, rfl, rfl, rfl⟩
+
+theorem ev_frame4 (s : State) (es : List Ev) : Frame4 s (ev s es) := ⟨rfl, rfl, rfl, rfl⟩
+
+theorem startApp_frame4 (cid : Nat) (blocked : List Nat) (a : App) (s : State) :
+    Frame4 s (startApp cid blocked a s).1 := by
+  unfold startApp
+  split
+  · exact bindAll_frame4 _ _ _ _ _
+  · split
+    · exact ev_frame4 _ _
+    · have h := (ev_frame4 s [.start ⟨cid, a.name, 0⟩]).trans
+        (bindAll_frame4 cid a blocked a.listen (ev s [.start ⟨cid, a.name, 0⟩]))
+      generalize bindAll cid a blocked a.listen (ev s [.start ⟨cid, a.name, 0⟩]) = r at h
+      obtain ⟨s', b⟩ := r
+      cases b with
+      | true => exact h.trans (ev_frame4 _ _)
+      | false => exact (h.trans (closeApp_frame4 _ _ _)).trans (ev_frame4 _ _)
+
+theorem stopApp_frame4 (cid : Nat) (a : App) (s : State) : Frame4 s (stopApp cid a s) := by
+  unfold stopApp; split
+  · exact closeApp_frame4 _ _ _
+  · exact (closeApp_frame4 _ _ _).trans (ev_frame4 _ _)
+
+theorem stopApps_frame4 (cid : Nat) : ∀ (as : List App) (s : State), Frame4 s (stopApps cid as s)
+  | [], s => Frame4.rfl' s
+  | a :: as, s => by
+    unfold stopApps
+    exact (stopApp_frame4 cid a s).trans (stopApps_frame4 cid as _)
+
+theorem startApps_frame4 (cid : Nat) (blocked : List Nat) : ∀ (rest started : List App) (s : State),
+    Frame4 s (startApps cid blocked started rest s).1
+  | [], _, s => Frame4.rfl' s
+  | a :: rest, started, s => by
+    unfold startApps
+    have h := startApp_frame4 cid blocked a s
+    generalize startApp cid blocked a s = r at h
+    obtain ⟨s', b⟩ := r
+    cases b with
+    | true => exact h.trans (startApps_frame4 cid blocked rest _ s')
+    | false => exact h.trans (stopApps_frame4 _ _ _)
+
+theorem unsyncedStop_frame4 (c : Option Ctx) (s : State) : Frame4 s (unsyncedStop c s) := by
+  unfold unsyncedStop
+  cases c with
+  | none => exact Frame4.rfl' s
+  | some ctx => exact (stopApps_frame4 _ _ _).trans (cancel_frame _ _ _ _ _).to4
+
+/-! #### ownership: which sockets of context `cid` exist, on top of the `base` of older ones -/
+
+def Own (cid : Nat) (base : List Sock) (names : List Nat) (s : State) : Prop :=
+  ∃ X, s.socks = base ++ X ∧ ∀ k ∈ X, k.cid = cid ∧ k.app ∈ names
+
+theorem Own.mono {cid : Nat} {base : List Sock} {n1 n2 : List Nat} {s : State}
+    (h : Own cid base n1 s) (hs : ∀ n ∈ n1, n ∈ n2) : Own cid base n2 s := by
+  obtain ⟨X, h1, h2⟩ := h
+  exact ⟨X, h1, fun k hk => ⟨(h2 k hk).1, hs _ (h2 k hk).2⟩⟩
+
+theorem Own.socks_eq {cid : Nat} {base : List Sock} {names : List Nat} {s s' : State}
+    (h : Own cid base names s) (hs : s'.socks = s.socks) : Own cid base names s' := by
+  obtain ⟨X, h1, h2⟩ := h
+  exact ⟨X, hs.trans h1, h2⟩
+
+theorem Own.nil {cid : Nat} {base : List Sock} {s : State} (h : Own cid base [] s) : s.socks = base := by
+  obtain ⟨X, h1, h2⟩ := h
+  cases X with
+  | nil => simpa using h1
+  | cons k _ => exact absurd (h2 k (by simp)).2 (by simp)
+
+theorem own_bind {cid : Nat} {base : List Sock} {names : List Nat} {s : State} (a : App)
+    (blocked l : List Nat) (h : Own cid base names s) :
+    Own cid base (a.name :: names) (bindAll cid a blocked l s).1 := by
+  obtain ⟨X, h1, h2⟩ := h
+  obtain ⟨pre, suf, _, e, _, _⟩ := bindAll_spec cid a blocked l s
+  rw [e]
+  refine ⟨X ++ pre.map (mkSock cid a), by simp [h1], ?_⟩
+  intro k hk
+  rcases List.mem_append.mp hk with hk | hk
+  · exact ⟨(h2 k hk).1, List.mem_cons_of_mem _ (h2 k hk).2⟩
+  · obtain ⟨ad, _, rfl⟩ := List.mem_map.mp hk
+    exact ⟨rfl, List.mem_cons_self⟩
+
+theorem own_close {cid : Nat} {base : List Sock} {names : List Nat} {s : State} (n : Nat)
+    (hb : ∀ k ∈ base, k.cid ≠ cid) (h : Own cid base names s) :
+    Own cid base (names.filter (· ≠ n)) (closeApp cid n s) := by
+  obtain ⟨X, h1, h2⟩ := h
+  refine ⟨X.filter (fun k => !(k.cid == cid && k.app == n)), ?_, ?_⟩
+  · simp only [closeApp, h1, List.filter_append]
+    congr 1
+    apply List.filter_eq_self.mpr
+    intro k hk
+    have := hb k hk
+    simp [this]
+  · intro k hk
+    obtain ⟨hk1, hk2⟩ := List.mem_filter.mp hk
+    have hc := (h2 k hk1).1
+    refine ⟨hc, List.mem_filter.mpr ⟨(h2 k hk1).2, ?_⟩⟩
+    simp [hc] at hk2
+    simpa using hk2
+
+theorem own_stopApp {cid : Nat} {base : List Sock} {names : List Nat} {s : State} (a : App)
+    (hb : ∀ k ∈ base, k.cid ≠ cid) (h : Own cid base names s) :
+    Own cid base (names.filter (· ≠ a.name)) (stopApp cid a s) := by
+  unfold stopApp
+  split
+  · exact own_close _ hb h
+  · exact (own_close _ hb h).socks_eq rfl
+
+theorem own_stopApps {cid : Nat} {base : List Sock} (hb : ∀ k ∈ base, k.cid ≠ cid) :
+    ∀ (as : List App) (names : List Nat) (s : State), Own cid base names s →
+      Own cid base (names.filter (fun n => n ∉ as.map (·.name))) (stopApps cid as s)
+  | [], names, s, h => by simpa [stopApps] using h
+  | a :: as, names, s, h => by
+    unfold stopApps
+    refine (own_stopApps hb as _ _ (own_stopApp a hb h)).mono ?_
+    intro n hn
+    simp only [List.mem_filter, decide_eq_true_eq, List.map_cons, List.mem_cons, not_or] at hn ⊢
+    exact ⟨hn.1.1, by simpa using hn.1.2, hn.2⟩
+
+/-- a Start that fails: a probe app leaves nothing of its own; the HTTP app leaves what it bound -/
+theorem own_startApp {cid : Nat} {base : List Sock} {names : List Nat} {s : State} (a : App)
+    (blocked : List Nat) (hb : ∀ k ∈ base, k.cid ≠ cid) (h : Own cid base names s) :
+    Own cid base (if (startApp cid blocked a s).2 = true ∨ a.isHttp then a.name :: names else names)
+      (startApp cid blocked a s).1 := by
+  unfold startApp
+  split
+  · rename_i hh
+    simp only [hh, or_true, if_true]
+    exact own_bind a blocked a.listen h
+  · rename_i hh
+    split
+    · simp [hh]; exact h.socks_eq rfl
+    · have h0 : Own cid base names (ev s [.start ⟨cid, a.name, 0⟩]) := h.socks_eq rfl
+      have h1 := own_bind a blocked a.listen h0
+      generalize bindAll cid a blocked a.listen (ev s [.start ⟨cid, a.name, 0⟩]) = r at h1
+      obtain ⟨s', b⟩ := r
+      cases b with
+      | true => simp; exact h1.socks_eq rfl
+      | false =>
+        simp [hh]
+        refine ((own_close a.name hb h1).socks_eq rfl).mono ?_
+        intro n hn
+        simp only [List.mem_filter, List.mem_cons, decide_eq_true_eq] at hn
+        rcases hn.1 with h | h
+        · exact absurd h hn.2
+        · exact h
+
+/-- the start loop, when it fails, leaves only sockets of the rejected config's HTTP app -/
+theorem own_startApps_fail {cid : Nat} {base : List Sock} (blocked : List Nat)
+    (hb : ∀ k ∈ base, k.cid ≠ cid) : ∀ (rest started : List App) (s : State),
+    Own cid base (started.map (·.name)) s →
+    (startApps cid blocked started rest s).2 = false →
+    Own cid base [3] (startApps cid blocked started rest s).1
+  | [], _, s, _, hf => by simp [startApps] at hf
+  | a :: rest, started, s, h, hf => by
+    unfold startApps at hf ⊢
+    have h1 := own_startApp a blocked hb h
+    generalize startApp cid blocked a s = r at h1 hf
+    obtain ⟨s', b⟩ := r
+    cases b with
+    | true =>
+      simp only [true_or, if_true] at h1
+      refine own_startApps_fail blocked hb rest (started ++ [a]) s' (h1.mono ?_) hf
+      intro n hn; simp at hn ⊢; rcases hn with h | h
+      · exact Or.inr h
+      · exact Or.inl h
+    | false =>
+      simp only [Bool.false_eq_true, false_or] at h1
+      refine (own_stopApps hb started _ s' h1).mono ?_
+      intro n hn
+      simp only [List.mem_filter, decide_eq_true_eq] at hn
+      obtain ⟨hn1, hn2⟩ := hn
+      split at hn1
+      · rename_i hh
+        rcases List.mem_cons.mp hn1 with h | h
+        · simp [App.isHttp] at hh; simp [h, hh]
+        · exact absurd h hn2
+      · exact absurd hn1 hn2
+
+theorem startApp_ok {cid : Nat} {blocked : List Nat} {a : App} {s s' : State}
+    (h : startApp cid blocked a s = (s', true)) : s'.socks = s.socks ++ appSocks cid a := by
+  unfold startApp at h
+  split at h
+  · obtain ⟨pre, suf, h1, h2, h3, _⟩ := bindAll_spec cid a blocked a.listen s
+    rw [h] at h2 h3
+    have := h3 rfl
+    subst this
+    simp at h1
+    simp only at h2
+    rw [h2, appSocks_eq, h1]
+  · split at h
+    · simp at h
+    · obtain ⟨pre, suf, h1, h2, h3, _⟩ := bindAll_spec cid a blocked a.listen (ev s [.start ⟨cid, a.name, 0⟩])
+      generalize bindAll cid a blocked a.listen (ev s [.start ⟨cid, a.name, 0⟩]) = r at h h2 h3
+      obtain ⟨s1, b⟩ := r
+      cases b with
+      | false => simp at h
+      | true =>
+        simp at h
+        have := h3 rfl
+        subst this
+        simp at h1
+        simp only at h2
+        rw [← h, h2, appSocks_eq, h1]
+        rfl
+
+theorem startApps_ok {cid : Nat} {blocked : List Nat} : ∀ (rest started : List App) (s s' : State),
+    startApps cid blocked started rest s = (s', true) → s'.socks = s.socks ++ rest.flatMap (appSocks cid)
+  | [], _, s, s', h => by simp [startApps] at h; simp [h]
+  | a :: rest, started, s, s', h => by
+    unfold startApps at h
+    generalize hr : startApp cid blocked a s = r at h
+    obtain ⟨s1, b⟩ := r
+    cases b with
+    | false => simp at h
+    | true =>
+      have := startApps_ok rest _ s1 s' h
+      rw [this, startApp_ok hr]
+      simp
+
 end CaddyModel.C01
